@@ -15,7 +15,7 @@ from bctmc import oracles as orc
 from bctmc.tally import Tally
 
 PROPERTY = 'C06'
-RULE = ('inputs: symmetric sign patterns over {-,0,+} on 4 nodes with >=1 positive and >=1 negative pair and distinct '
+RULE = ('a 220-node signed network (a third of the cells positive, a third negative) under the generator seeded with 0..3 (not exhaustive over answers: the picker of four nodes changes its arithmetic beyond 215 nodes and has no enumerable menu there); inputs: symmetric sign patterns over {-,0,+} on 4 nodes with >=1 positive and >=1 negative pair and distinct '
         'magnitudes (quick: a fixed third of the patterns with <=4 non-zero pairs; thorough: all of them and <=5), directed '
         'sign patterns on swap quads (+ reciprocal / extra arcs); budgets 1-2 iterations; null models: bin_swaps in {0, one '
         'iteration} x wei_freq in {0, 1, 0.5}, <=3 positive and <=3 negative connections (permutation menus <= 6!), plus '
@@ -243,10 +243,13 @@ THOROUGH = [False]
 
 def plan(ctx):
     THOROUGH[0] = ctx.thorough
-    return [[c] for c in catalogue(ctx.thorough)]
+    from bctmc import seedtable as stb
+    return [[c] for c in catalogue(ctx.thorough)] + [('large', name) for name in stb.LARGE_SIGNED_DENSE]
 
 
 def unit_cost(unit):
+    if unit[0] == 'large':
+        return 1
     c = unit[0]
     return len(c['W']) * 10 + (5 if c['params'].get('wei_freq') == 1 else 0) + c['params'].get('iters', 0)
 
@@ -347,7 +350,39 @@ def invariant(t, cfg, frames, case_fn):
     t.c['state_invariant_skipped'] += 1
 
 
+def work_large(name):
+    """220 nodes (the node picker of the signed rewirers changes its arithmetic beyond 215): no menu can be enumerated
+    there; the routine is run under the generator seeded with 0..3 - a stated four-element set of answer streams."""
+    from bctmc import seedtable as stb
+    from bctmc.runner import guarded
+    t = Tally(PROPERTY)
+    a, kw = stb.LARGE_SIGNED_DENSE[name]
+    W = np.array(a[0], dtype=float)
+    for seed in (0, 1, 2, 3):
+        st, out = guarded(getattr(bct, name), *stb.clone(a), _timeout=600, **dict(stb.clone(kw), seed=seed))
+        t.c['evaluations'] += 1
+        t.c['large_size_executions'] += 1
+        case = {'config': {'fn': name, 'W': 'seedtable.LARGE_SIGNED_DENSE', 'params': {k: v for k, v in kw.items()}}, 'large': True, 'seed': seed}
+        if st != 'ok':
+            t.viol(name, 'raises' if st == 'exc' else 'does_not_terminate', case, observed=out)
+            continue
+        R = np.asarray(out[0], dtype=float)
+        if sign_degrees(R) != sign_degrees(W):
+            t.viol(name, 'signed_degrees', case)
+        for nm, sel in (('positive', lambda X: X[X > 0]), ('negative', lambda X: X[X < 0])):
+            if sorted(sel(R).tolist()) != sorted(sel(W).tolist()):
+                t.viol(name, nm + '_weight_multiset', case)
+        if np.any(np.diag(R) != 0):
+            t.viol(name, 'empty_diagonal', case, observed=int(np.count_nonzero(np.diag(R))))
+        if 'und' in name and not np.array_equal(R, R.T):
+            t.viol(name, 'symmetric', case)
+    t.c['nontrivial'] += 1
+    return t
+
+
 def work(unit):
+    if unit and unit[0] == 'large':
+        return work_large(unit[1])
     t = Tally(PROPERTY)
     for cfg in unit:
         t.merge(rw.explore_config(PROPERTY, cfg, judge, invariant,
@@ -362,4 +397,6 @@ def coverage(ctx, total):
 
 
 def replay(rec):
+    if rec['case'].get('large'):
+        return work_large(rec['case']['config']['fn'])
     return rw.replay_case(PROPERTY, rec, judge, invariant)
